@@ -1398,13 +1398,13 @@ def run(ctx) -> Result:
         if c is not None:
             smooth.append(c)
     check_cases(res, smooth, True)
-    sweep = (gen_sweep_sessions(rng, trees_per_kind=3) if ctx.thorough
+    sweep = (gen_sweep_sessions(rng, trees_per_kind=2) if ctx.thorough
              else gen_sweep_sessions(rng, calls=("v", "j"), mids=("nothing", "x-inplace", "x-fresh-equal")))
     for c in sweep:
         res.count("session-sweep-kind:" + c["sweep"])
     for i in range(0, len(sweep), 400):
         check_sessions(res, sweep[i : i + 400])
-    n_sess = 6000 if ctx.thorough else 700
+    n_sess = 4000 if ctx.thorough else 700
     sessions: list[dict] = []
     while len(sessions) < n_sess:
         c = gen_session_case(rng)
